@@ -565,7 +565,13 @@ func (ctx *SigningContext) sign(req *http.Request) {
 
 func (ctx *SigningContext) prepare(req *http.Request) error {
 	ctx.buildScopeString()
-	ctx.Query = req.URL.Query()
+	// url.Query() silently drops the pairs it cannot parse (a ';' or a bad
+	// escape), they would be sent without being covered by the signature
+	query, e := url.ParseQuery(req.URL.RawQuery)
+	if e != nil {
+		return fmt.Errorf("invalid query: %v", e)
+	}
+	ctx.Query = query
 	if e := ctx.hashBody(req, false); e != nil {
 		return e
 	}
@@ -702,7 +708,14 @@ func (ctx *SigningContext) initFromQuery(req *http.Request) error {
 }
 
 func (ctx *SigningContext) initFromSignedRequest(req *http.Request) error {
-	ctx.Query = req.URL.Query()
+	// every query parameter that is forwarded must be covered by the
+	// signature: url.Query() silently drops the pairs it cannot parse (a ';'
+	// or a bad escape), so a query that does not parse completely is refused
+	query, e := url.ParseQuery(req.URL.RawQuery)
+	if e != nil {
+		return fmt.Errorf("invalid query: %v", e)
+	}
+	ctx.Query = query
 
 	if req.Header.Get(authHeader) != "" {
 		if e := ctx.initFromHeader(req); e != nil {
